@@ -108,12 +108,18 @@ def classify(prop, spec, group, results, known, run_dir, tier):
 
 def make_replay(prop, group, harness, failed, run_dir):
     """Concrete playback + native replay. Returns (replay_dir, reproduced|None)."""
-    rdir = os.path.join(VERIF, "work", "replays", prop, re.sub(r"\W", "_", harness))
+    rdir = os.path.join(K.WORK, "replays", prop, re.sub(r"\W", "_", harness))
     if os.path.exists(rdir):
         shutil.rmtree(rdir)
     os.makedirs(rdir)
     pb_harness = group.confirm.get(harness, harness)
-    tests = K.playback_print(group, pb_harness, rdir)
+    # concrete playback re-runs the harness; for harnesses with recording stubs
+    # the generated unit test cannot be run natively, so it is only produced on
+    # request (VERIF_PLAYBACK=1) or when a stub-free twin exists
+    if group.native_replay or pb_harness != harness or os.environ.get("VERIF_PLAYBACK"):
+        tests = K.playback_print(group, pb_harness, rdir)
+    else:
+        tests = []
     meta = dict(property=prop, harness=harness, group=group.name, features=list(group.features),
                 failed_checks=[dict(function=c["function"], description=c["description"],
                                     location=c["location"]) for c in failed],
@@ -198,21 +204,22 @@ def write_evidence(prop, tier, seed, spec, per, extra, wall, nviol, assumptions)
     cov.update(extra.get("coverage_extra", {}))
     ev = dict(property_id=prop, tier=tier, seed=seed, level=spec["level"], coverage=cov,
               assumptions=assumptions, wall_s=round(wall, 1), violations=nviol)
-    os.makedirs(os.path.join(VERIF, "evidence"), exist_ok=True)
-    tmp = os.path.join(VERIF, "evidence", prop + ".json.tmp")
+    evdir = os.path.join(VERIF, "evidence") if K.REPO == "/repo" else os.path.join(K.WORK, "evidence")
+    os.makedirs(evdir, exist_ok=True)
+    tmp = os.path.join(evdir, prop + ".json.tmp")
     json.dump(ev, open(tmp, "w"), indent=1)
-    os.replace(tmp, os.path.join(VERIF, "evidence", prop + ".json"))
+    os.replace(tmp, os.path.join(evdir, prop + ".json"))
 
 
 def run_property(prop, tier, seed):
     t0 = time.time()
     spec = registry.PROPS[prop]
     known = load_known()
-    run_dir = os.path.join(VERIF, "work", "runs", "%s_%s" % (prop, tier))
+    run_dir = os.path.join(K.WORK, "runs", "%s_%s" % (prop, tier))
     if os.path.exists(run_dir):
         shutil.rmtree(run_dir)
     os.makedirs(run_dir)
-    log("== %s (%s tier) on /repo working tree" % (prop, tier))
+    log("== %s (%s tier) on %s working tree" % (prop, tier, K.REPO))
     ctx = dict(prop=prop, tier=tier, seed=seed, run_dir=run_dir, log=log, errors=[], violations=[],
                extra=dict(functions=set(), samples=[], stubs=[]))
     # 1. reference-model self test + native helpers
